@@ -158,16 +158,38 @@ def oracle(ctx, rng, n, max_steps=300):
         else:
             case = gi.random_case(rng, positions=pos, n_types=rng.choice([1, 2, 2]), gap_model='flow',
                                   length=round(rng.uniform(0.05, 0.25), 3), flow_range=(0.2, 6.0))
+        # further classes (every sixth core each): six-node regions with their own convection factor; the low-flow convection
+        # approximation (with duct heating); double-ducted types, with the approximation, or with a stagnant bypass gap
+        feature = {3: 'six-node', 4: 'conv-approx', 5: 'double-duct'}.get(ci % 6 if ci >= 6 or ci % 6 >= 3 else -1, '')
+        if feature == 'double-duct':
+            sub = rng.choice(['', '+conv-approx', '+stagnant-bypass'])
+            case = gi.random_case(rng, positions=pos, n_types=rng.choice([1, 2]), gap_model='flow', length=round(rng.uniform(0.05, 0.2), 3),
+                                  flow_range=(0.5, 6.0), type_kw=dict(n_duct=2),
+                                  opts=dict(bypass_gap_flow_fraction=0.0) if sub == '+stagnant-bypass' else None)
+            feature += sub
+        if 'conv-approx' in feature:
+            case['setup']['conv_approx'] = True
+            case['setup']['conv_approx_dz_cutoff'] = 1.0
         case['core']['bypass_fraction'] = round(10 ** rng.uniform(-2.3, -1), 5)
         for tn in list(case['types']):
             u = rng.random() if not same_rings else 1.0
-            if ci % 3 == 2:
+            if ci % 3 == 2 or feature == 'six-node':
                 u = 0.0        # every third core: unrodded regions below / above the bundle (region switches while coupled to the gap)
             if u < 0.25:
-                gi.add_axial_regions(rng, case, tn, lower=rng.random() < 0.7, upper=rng.random() < 0.7, models=('simple',))
+                gi.add_axial_regions(rng, case, tn, lower=rng.random() < 0.7 or feature == 'six-node', upper=rng.random() < 0.7,
+                                     models=('6node',) if feature == 'six-node' else ('simple',))
             elif u < 0.4:
                 gi.make_low_fidelity(rng, case, tn, model='simple')
-        gi.random_power(rng, case)
+        if 'conv-approx' in feature and rng.random() < 0.5:
+            # the approximation with heat generated in the duct wall is a class of its own (known finding): the other half of the
+            # conv-approx cores has no duct heating and must close
+            gi.random_power(rng, case)
+            feature += '+duct-heating'
+        elif 'conv-approx' in feature:
+            gi.random_power(rng, case, components=("pins", "cool"))
+        else:
+            gi.random_power(rng, case)
+        ctx.count("core_class:" + (feature or 'plain'))
         d = str(ctx.work / ("k%d" % ci))
         try:
             inp, r = gi.build_reactor(case, d)
@@ -259,6 +281,11 @@ def oracle(ctx, rng, n, max_steps=300):
         if bad:
             b = bad[0]
             kinds = sorted(set(type(a.active_region).__name__ for a in r.assemblies))
+            if feature:
+                # the class of the core is part of the signature (six-node regions: with the convection factor of the active ones)
+                cf_ = sorted(set(round(float(getattr(a.active_region, '_mratio', 1.0) or 1.0), 6) for a in r.assemblies
+                                 if getattr(a.active_region, 'model', '') == '6node'))
+                kinds = [feature + (":factor<1" if any(c_ < 1.0 for c_ in cf_) else "")] + kinds
             if 'interface' in b:
                 it = b['interface']
                 ctx.violation("c02-interface:%s" % "+".join(kinds),
@@ -312,7 +339,7 @@ def run(ctx):
         ok = False
     if ok:
         ctx.prove("Dassh.Props.C02")
-    oracle(ctx, rng, 24 if ctx.thorough else 6)
+    oracle(ctx, rng, 30 if ctx.thorough else 9)
     ctx.nontrivial = ctx.evals
     ctx.traces = ctx.evals
     ctx.trusted += ["T1b trace of Core._flow_model/_update_energy_balance/_make_conv_mask (harness/checks/c02.py)"]
